@@ -355,7 +355,9 @@ def dat_corruptions(draw, model):
         c['col'] = draw(st.integers(3, len(header) - 1))
         declared = set(d['name'] for d in model['decls'])
         nm = draw(st.one_of(st.text(alphabet=NAME_CHARS, min_size=1, max_size=6),
-                            st.just(header[c['col']][:5] + 'X'), st.just(header[c['col']][:-1] or 'Q')))
+                            st.just(header[c['col']][:5] + 'X'), st.just(header[c['col']][:-1] or 'Q'),
+                            # a declared name in another letter case is another name
+                            st.just(header[c['col']].lower()), st.just(header[c['col']].swapcase()), st.just(header[c['col']].capitalize())))
         k = 0
         while nm in declared or not nm:  # undeclared by construction
             nm = (nm + UNDECLARED_TAIL[k % 3])[-7:]
